@@ -1,12 +1,19 @@
 (* C06: the continuous solution has no gaps.  Real-number instance of model/Solve.v sol_eval:
    on a contiguous chain of step segments (what the handler collects: C19 contiguity), every t between the first
    and the last covered time is evaluated, every t outside is OutOfRange, and without dense output NotEnabled. *)
-Require Import List Arith Bool Lia Reals Lra.
-Require Import IVP.model.Lit IVP.model.Ops IVP.model.Common IVP.model.SolOut IVP.model.Solve IVP.model.RealOps.
+Require Import List Arith Bool Lia Reals Lra QArith Qreals.
+Require Import IVP.model.Lit IVP.model.Ops IVP.model.Common IVP.model.SolOut IVP.model.Solve IVP.model.RealOps IVP.gen.Inline.
 Import ListNotations.
 Local Open Scope R_scope.
 
 Notation sg := (list R * R * R)%type.
+
+(* the slack of the range check is positive (1e-12) *)
+Lemma range_tol_pos : 0 < RANGE_TOL Rops.
+Proof.
+  unfold RANGE_TOL. cbn [lit Rops]. replace 0 with (Q2R 0) by (unfold Q2R; cbn; lra).
+  apply Qlt_Rlt. reflexivity.
+Qed.
 
 (* consecutive segments share their end points and all steps point the same way *)
 Fixpoint chain (fwd : bool) (x : R) (segs : list sg) : Prop :=
@@ -79,8 +86,10 @@ Theorem sol_eval_covers fwd m n (S : solution (F:=R)) segs x t :
 Proof.
   intros HS Hne Hc Ht. unfold sol_eval. rewrite HS, (t_span_chain fwd segs x Hne Hc).
   pose proof (chain_end_mono fwd _ _ Hc) as Hm.
-  assert (Hr : (ltb Rops t (fmin Rops x (chain_end x segs)) || ltb Rops (fmax Rops x (chain_end x segs)) t) = false).
-  { cbn [ltb fmin fmax Rops]. apply orb_false_iff. rewrite !Rltb_false. destruct fwd.
+  pose proof range_tol_pos as Htol.
+  assert (Hr : (ltb Rops t (sub Rops (fmin Rops x (chain_end x segs)) (RANGE_TOL Rops))
+                || ltb Rops (add Rops (fmax Rops x (chain_end x segs)) (RANGE_TOL Rops)) t) = false).
+  { cbn [ltb fmin fmax sub add Rops]. apply orb_false_iff. rewrite !Rltb_false. destruct fwd.
     - rewrite Rmin_left, Rmax_right by lra. lra.
     - rewrite Rmin_right, Rmax_left by lra. lra. }
   rewrite Hr.
@@ -92,11 +101,12 @@ Qed.
 
 Theorem sol_eval_outside m n (S : solution (F:=R)) segs st en t :
   sol_segs S = Some segs -> t_span Rops segs = Some (st, en) ->
-  t < Rmin st en \/ Rmax st en < t -> sol_eval Rops m n S t = SolOutOfRange.
+  t < Rmin st en - RANGE_TOL Rops \/ Rmax st en + RANGE_TOL Rops < t -> sol_eval Rops m n S t = SolOutOfRange.
 Proof.
   intros HS Hsp Ht. unfold sol_eval. rewrite HS, Hsp.
-  assert (Hr : (ltb Rops t (fmin Rops st en) || ltb Rops (fmax Rops st en) t) = true).
-  { cbn [ltb fmin fmax Rops]. apply orb_true_iff. rewrite !Rltb_true. exact Ht. }
+  assert (Hr : (ltb Rops t (sub Rops (fmin Rops st en) (RANGE_TOL Rops))
+                || ltb Rops (add Rops (fmax Rops st en) (RANGE_TOL Rops)) t) = true).
+  { cbn [ltb fmin fmax sub add Rops]. apply orb_true_iff. rewrite !Rltb_true. exact Ht. }
   now rewrite Hr.
 Qed.
 
